@@ -7,6 +7,7 @@ re-run in a fresh interpreter):
   {"op": "construct", "k": "add"|"mul"|"neg"|"lift", "a": id, "b": id}    new Var, id = next free
   {"op": "inline", "model": k, "x": id, "how": "kw"|"pos"|"missing"|"unknown"}   inline(models[k])(…)
   {"op": "renames", "kw": [[key, id]], "raises": bool}   the context manager on its own
+  {"op": "build_new", "out": id, "drop": bool}            build a Var constructed during the history (twice)
 Nothing here uses the Lean model.
 """
 from __future__ import annotations
@@ -63,7 +64,7 @@ def inline_model(k: int):
             [h.make_tensor_value_info("a", T.FLOAT, []), h.make_tensor_value_info("b", T.FLOAT, [])],
             initializer=[h.make_tensor("v", T.FLOAT, [1, 2], [1.0, 1.0])],
         )
-    m = h.make_model(g, opset_imports=[h.make_opsetid("", 17)], ir_version=8, producer_name="verif")
+    m = h.make_model(g, opset_imports=[h.make_opsetid("", 15 if k == 1 else 17)], ir_version=8, producer_name="verif")
     m.doc_string = "model doc"
     onnx.checker.check_model(m)
     return m
@@ -213,6 +214,19 @@ def run_case(prog, hist, ref, collect_all=False):
                     tag = "inline-ok"
                 except Exception:  # noqa: BLE001
                     tag = "inline-failed"
+            elif kind == "build_new":
+                if o["out"] not in env:
+                    tag = "skipped"
+                else:
+                    arg_ids = [n["id"] for n in prog["nodes"] if n["k"] == "arg"]
+                    req = {"inputs": [[f"x{j}", a] for j, a in enumerate(arg_ids)], "outputs": [["o", o["out"]]], "drop": o["drop"]}
+                    g1 = lf.run_build(env, req)
+                    g2 = lf.run_build(env, req)
+                    tag = "build-ok" if g1[0] == "ok" else "build-failed"
+                    s1 = sha(g1[1]) if g1[0] == "ok" else "err:" + g1[1]
+                    s2 = sha(g2[1]) if g2[0] == "ok" else "err:" + g2[1]
+                    if s1 != s2:
+                        viol.append(["bytes:repeat-differs", f"a Var made during the history built twice in a row: {s1} then {s2} (step {step})", step])
             elif kind == "renames" and manager is None:
                 tag = "skipped"
             elif kind == "renames":
@@ -255,9 +269,12 @@ def gen_history(rng: random.Random, prog, n_ops):
     anyv = args + scalars
     nxt = prog["n"]
     hist = []
+    made = []
     for _ in range(n_ops):
         r = rng.random()
-        if r < 0.5:
+        if made and rng.random() < 0.2:
+            hist.append({"op": "build_new", "out": rng.choice(made), "drop": rng.random() < 0.7})
+        elif r < 0.5:
             req = lf.gen_request(rng, prog, allow_bad=True, allow_dup=(rng.random() < 0.35))
             if rng.random() < 0.12 and req["inputs"] and req["outputs"]:
                 # an output named like an input: ScopeError in the middle of the build
@@ -275,6 +292,7 @@ def gen_history(rng: random.Random, prog, n_ops):
             hist.append(o)
             scalars.append(nxt)
             anyv.append(nxt)
+            made.append(nxt)
             nxt += 1
         elif r < 0.88 and scalars:
             k = rng.randrange(N_MODELS)
@@ -284,6 +302,7 @@ def gen_history(rng: random.Random, prog, n_ops):
                 for _ in range(2 if k == 2 else 1):
                     scalars.append(nxt)
                     anyv.append(nxt)
+                    made.append(nxt)
                     nxt += 1
         elif args:
             ks = rng.sample(args, min(len(args), rng.randrange(1, 4)))
